@@ -8,10 +8,15 @@ from vlib import NCPU, Inconclusive, seed, workdir
 
 
 def run_walkers(binary, graph, wd, extra_args, procs=2, threads=None, walks=0, walklen=60, maxtour=40, timeout=900,
-                tag="w"):
+                tag="w", share=None):
     """graph: dict from edges.build_graph. procs child processes x threads goroutines each."""
     threads = threads or max(1, NCPU // procs)
     total = procs * threads
+    base0 = 0
+    if share:
+        # share=(i, n): this run covers only the i-th of n equal slices of the edge set (quick tiers)
+        total = procs * threads * share[1]
+        base0 = (share[0] % share[1]) * procs * threads
     ps = []
     env = dict(os.environ, GOMAXPROCS=str(threads + 1))
     for i in range(procs):
@@ -19,7 +24,7 @@ def run_walkers(binary, graph, wd, extra_args, procs=2, threads=None, walks=0, w
         jr = os.path.join(wd, "%s-journal" % tag)
         cmd = [binary, "-graph", graph["pure"], "-init", graph["init"], "-obs0", graph["obs0"],
                "-devs", ",".join("%s=%s" % kv for kv in graph["devs"].items()),
-               "-out", out, "-worker", str(i * threads), "-workers", str(total), "-threads", str(threads),
+               "-out", out, "-worker", str(base0 + i * threads), "-workers", str(total), "-threads", str(threads),
                "-seed", str(seed()), "-walks", str(walks), "-walklen", str(walklen), "-maxtour", str(maxtour),
                "-journal", jr] + extra_args
         ps.append((i, out, jr, subprocess.Popen(cmd, stdout=subprocess.PIPE, stderr=subprocess.PIPE, text=True, env=env)))
@@ -36,7 +41,7 @@ def run_walkers(binary, graph, wd, extra_args, procs=2, threads=None, walks=0, w
                 raise Inconclusive("walker %d failed: %s" % (i, se[-2000:]))
             # the child died (fatal runtime error, watchdog): the journals name the tours in flight
             paths = {}
-            for t in range(i * threads, (i + 1) * threads):
+            for t in range(base0 + i * threads, base0 + (i + 1) * threads):
                 try:
                     paths[t] = [json.loads(l) for l in open("%s.%d" % (jr, t)) if l.strip()]
                 except (OSError, ValueError):
@@ -45,6 +50,61 @@ def run_walkers(binary, graph, wd, extra_args, procs=2, threads=None, walks=0, w
             continue
         reports.append(json.load(open(out)))
     return reports, crashes
+
+
+def run_jobs(binary, graph, wd, jobs, conc=4, threads=4, walks=0, walklen=60, maxtour=40, timeout=1500):
+    """Runs the jobs (dicts with args=["-adaptor", files], tag, optional share=(i, n)) in `conc` walker processes,
+    each loading the graph once and working through its jobs one after the other with `threads` goroutines.
+    Returns [(reports, crashes)] in job order."""
+    groups = [[] for _ in range(min(conc, max(1, len(jobs))))]
+    for n, job in enumerate(jobs):
+        groups[n % len(groups)].append((n, job))
+    env = dict(os.environ, GOMAXPROCS=str(threads + 1))
+    ps = []
+    for gi, grp in enumerate(groups):
+        spec = []
+        for n, job in grp:
+            share = job.get("share") or (0, 1)
+            spec.append({"Adaptor": job["args"][1], "Out": os.path.join(wd, "job-%d.json" % n),
+                         "Worker": (share[0] % share[1]) * threads, "Workers": threads * share[1],
+                         "Journal": os.path.join(wd, "job-%d-journal" % n)})
+        jf = os.path.join(wd, "jobs-%d.json" % gi)
+        json.dump(spec, open(jf, "w"))
+        cmd = [binary, "-graph", graph["pure"], "-init", graph["init"], "-obs0", graph["obs0"],
+               "-devs", ",".join("%s=%s" % kv for kv in graph["devs"].items()), "-threads", str(threads),
+               "-seed", str(seed()), "-walks", str(walks), "-walklen", str(walklen), "-maxtour", str(maxtour),
+               "-jobs", jf]
+        ps.append((grp, spec, jf, subprocess.Popen(cmd, stdout=subprocess.PIPE, stderr=subprocess.PIPE, text=True, env=env)))
+    results = [None] * len(jobs)
+    for grp, spec, jf, p in ps:
+        try:
+            so, se = p.communicate(timeout=timeout)
+        except subprocess.TimeoutExpired:
+            p.kill()
+            p.communicate()
+            raise Inconclusive("walker process timed out")
+        if p.returncode == 2:
+            raise Inconclusive("walker failed: %s" % se[-2000:])
+        cur = None
+        if p.returncode != 0:
+            try:
+                cur = open(jf + ".current").read()
+            except OSError:
+                pass
+        for (n, job), sp in zip(grp, spec):
+            if os.path.exists(sp["Out"]):
+                results[n] = ([json.load(open(sp["Out"]))], [])
+            elif p.returncode != 0 and sp["Out"] == cur:
+                paths = {}
+                for t in range(sp["Worker"], sp["Worker"] + threads):
+                    try:
+                        paths[t] = [json.loads(l) for l in open("%s.%d" % (sp["Journal"], t)) if l.strip()]
+                    except (OSError, ValueError):
+                        pass
+                results[n] = ([], [{"mkind": "crash", "rc": p.returncode, "stderr": se[-3000:], "paths_in_flight": paths}])
+            else:
+                results[n] = ([], [])   # not started because an earlier job of the same process died
+    return results
 
 
 def fold(chk, reports, crashes, what, devmap, replay_meta):
@@ -71,7 +131,7 @@ def fold(chk, reports, crashes, what, devmap, replay_meta):
                     chk.known_hit(fid, desc)
         for mm in r.get("mismatches") or []:
             chk.violation("%s: %s at step %d: want res=%s obs=%s; got res=%s obs=%s %s" % (
-                what, mm["kind"], len(mm.get("path") or []), mm.get("want_res"), (mm.get("want_obs") or "")[:300],
+                what, mm["mkind"], len(mm.get("path") or []), mm.get("want_res"), (mm.get("want_obs") or "")[:300],
                 mm.get("got_res"), (mm.get("got_obs") or "")[:300], (mm.get("panic") or "")[:300]),
                 dict(replay_meta, **mm))
         for s in r.get("samples") or []:
